@@ -20,7 +20,11 @@ use super::util::*;
 pub enum Req {
     /// ARP request for the server address (IPv4 scenarios), with Ethernet padding
     Arp { pad: u8 },
-    Echo { id: u16, seq: u16, data: Hex, pad: u8 },
+    Echo { id: u16, seq: u16, data: Hex, pad: u8,
+           /// IPv4 header options of the request (well-formed: NOP / Record Route / Timestamp / EOL,
+           /// padded to a multiple of 4); ignored over IPv6
+           #[serde(default)]
+           ip4_opts: Hex },
     /// neighbour solicitation for the server address (IPv6 scenarios); well-formed NDP options
     /// `other_dst`: sent to this unicast address instead (a reachability probe through another
     /// address; the advertisement must still come from the solicited target)
@@ -64,6 +68,36 @@ pub fn echo_data() -> impl Strategy<Value = Hex> {
     ]
 }
 
+/// well-formed IPv4 options (mostly none)
+pub fn ip4_options() -> impl Strategy<Value = Hex> {
+    prop_oneof![
+        6 => Just(Hex(vec![])),
+        1 => (1usize..=9, any::<[u8; 36]>()).prop_map(|(slots, d)| {
+            // Record Route: type 7, length 3 + 4*slots, pointer 4, data
+            let mut v = vec![7u8, (3 + 4 * slots) as u8, 4];
+            v.extend_from_slice(&d[..4 * slots]);
+            v.push(0);
+            while v.len() % 4 != 0 {
+                v.push(0);
+            }
+            v.truncate(40);
+            Hex(v)
+        }),
+        1 => (1usize..=4, any::<[u8; 32]>(), 0u8..4).prop_map(|(slots, d, flag)| {
+            // Timestamp: type 68, length 4 + 8*slots (flag 1/3) or 4*slots, pointer 5, oflw/flag
+            let per = if flag == 0 { 4 } else { 8 };
+            let mut v = vec![68u8, (4 + per * slots) as u8, 5, flag & 3];
+            v.extend_from_slice(&d[..per * slots]);
+            while v.len() % 4 != 0 {
+                v.push(1);
+            }
+            v.truncate(40);
+            Hex(v)
+        }),
+        1 => (1usize..=10).prop_map(|w| Hex(vec![1u8; w * 4])),
+    ]
+}
+
 pub fn req(v4: bool) -> BoxedStrategy<Req> {
     let syn_extra = prop::sample::select(vec![0u16, F_PSH, F_URG, F_ECE, F_CWR, F_PSH | F_URG, F_PSH | F_ECE, F_URG | F_CWR, F_PSH | F_URG | F_ECE]);
     let payload = prop_oneof![
@@ -81,7 +115,7 @@ pub fn req(v4: bool) -> BoxedStrategy<Req> {
     };
     prop_oneof![
         2 => l2,
-        3 => (any::<u16>(), any::<u16>(), echo_data(), prop_oneof![3 => Just(0u8), 1 => 1u8..20]).prop_map(|(id, seq, data, pad)| Req::Echo { id, seq, data, pad }),
+        3 => (any::<u16>(), any::<u16>(), echo_data(), prop_oneof![3 => Just(0u8), 1 => 1u8..20], ip4_options()).prop_map(|(id, seq, data, pad, ip4_opts)| Req::Echo { id, seq, data, pad, ip4_opts }),
         3 => (port(), port(), prop_oneof![1 => any::<u32>(), 1 => prop::sample::select(vec![0u32, 1, 0x7fffffff, 0x80000000, 0xffffffff])], syn_extra, prop_oneof![3 => Just(Hex(vec![])), 1 => bytes(64)]).prop_map(|(sport, dport, seq, extra, payload)| Req::Syn { sport, dport, seq, extra, payload }),
         6 => (port(), port(), any::<u32>(), payload).prop_map(|(sport, dport, isn, pay)| Req::TcpData { sport, dport, isn, pay }),
         1 => (port(), port(), any::<u32>(), any::<u32>()).prop_map(|(sport, dport, seq, ack)| Req::FinAck { sport, dport, seq, ack }),
@@ -102,8 +136,19 @@ pub fn realize(sut: &Sut, net: &Net, r: &Req) -> Result<Vec<u8>, String> {
             }
             _ => return Err("ARP request needs an IPv4 scenario".into()),
         },
-        Req::Echo { id, seq, data, pad } => {
-            let mut f = echo_frame(net, *id, *seq, data);
+        Req::Echo { id, seq, data, pad, ip4_opts } => {
+            let mut f = match (&net.cip, &net.sip) {
+                (IpAddr::V4(c), IpAddr::V4(sv)) if !ip4_opts.is_empty() => {
+                    let mut rest = Vec::with_capacity(4 + data.len());
+                    rest.extend_from_slice(&id.to_be_bytes());
+                    rest.extend_from_slice(&seq.to_be_bytes());
+                    rest.extend_from_slice(data);
+                    let mut h = Ip4H::new(c.octets(), sv.octets(), P_ICMP);
+                    h.options = ip4_opts.0.clone();
+                    eth(&net.dmac, &net.cmac, ET_V4, &ip4(&h, &icmp4(8, 0, &rest)))
+                }
+                _ => echo_frame(net, *id, *seq, data),
+            };
             f.extend(std::iter::repeat(0x55u8).take(*pad as usize));
             f
         }
